@@ -541,3 +541,55 @@ Fixpoint tame_events (f : filters) (evs : list event) : bool :=
   | EToggle f' :: r => plain_toggle f f' && tame_events f' r
   | _ :: r => tame_events f r
   end.
+
+(* ------------------------------------------------------------------ TxIndex with its memo *)
+
+(* Client.TxIndex keeps a memo (txCache: id -> index) of the lookups that
+   FOUND a record; the store only grows (ClearCache / the memory GC are not
+   modelled). Newest entry first.
+
+     Client.TxIndex                       -> tx_index_memo
+     ClientMsgState (append) / any lookup -> store_step *)
+Definition tx_cache := list (nat * Z).
+
+Fixpoint cache_get (cache : tx_cache) (id : nat) : option Z :=
+  match cache with
+  | [] => None
+  | (k, i) :: r => if Nat.eqb k id then Some i else cache_get r id
+  end.
+
+(* (answer, memo afterwards): a hit of the memo is returned as it is; a scan
+   that finds the record is remembered, one that finds nothing is not *)
+Definition tx_index_memo (cache : tx_cache) (msgs : list msg) (id : nat) : Z * tx_cache :=
+  match cache_get cache id with
+  | Some i => (i, cache)
+  | None =>
+    let i := tx_index msgs id in
+    if Z.ltb (-1) i then (i, (id, i) :: cache) else (i, cache)
+  end.
+
+(* NOT the code: the same with misses remembered too (see
+   tx_index_memo_of_misses_refuted) *)
+Definition tx_index_memo_all (cache : tx_cache) (msgs : list msg) (id : nat) : Z * tx_cache :=
+  match cache_get cache id with
+  | Some i => (i, cache)
+  | None => let i := tx_index msgs id in (i, (id, i) :: cache)
+  end.
+
+Inductive store_event :=
+| SArrive (m : msg)           (* a message is appended to MsgTxs *)
+| SLookup (id : nat).         (* TxIndex(id): ScrollToTx by id, address jumps, log links *)
+
+Definition store_step (lookup : tx_cache -> list msg -> nat -> Z * tx_cache)
+    (s : list msg * tx_cache) (e : store_event) : list msg * tx_cache :=
+  match e with
+  | SArrive m => (fst s ++ [m], snd s)
+  | SLookup id => (fst s, snd (lookup (snd s) (fst s) id))
+  end.
+
+Definition store_run (lookup : tx_cache -> list msg -> nat -> Z * tx_cache)
+    (s : list msg * tx_cache) (evs : list store_event) : list msg * tx_cache :=
+  fold_left (store_step lookup) evs s.
+
+Definition store_arrived (evs : list store_event) : list msg :=
+  flat_map (fun e => match e with SArrive m => [m] | SLookup _ => [] end) evs.
